@@ -1,0 +1,15 @@
+//go:build verif
+
+// Contracts for package file (comment-only; read by /verif/vf, see /verif/DESIGN.md).
+
+package file
+
+// The filtered walk used by status never returns a path inside Goit's own directory (C17): every path is passed through
+// Ignore.IsIncluded, which reports every path under ".goit/" as ignored, before it is returned or descended into.
+//@ func GetFilePathsUnderDirectoryWithIgnore
+//@   returns paths, err
+//@   pure
+//@   requires ignore != nil && store.wfIgnore(ignore) && index != nil && store.wfIndex(index)
+//@   ensures [no-meta] {C17} forall k int :: 0 <= k && k < len(paths) ==> !hasPrefix(paths[k], ".goit/")
+//@   loop 0:
+//@     invariant forall k int :: 0 <= k && k < len(filePaths) ==> !hasPrefix(filePaths[k], ".goit/")
